@@ -167,6 +167,24 @@ func init() {
 			m.AssertProp(a[0].(*sym.Term), m.cstr(a[1], "Assert label"))
 			return nil
 		},
+		ZZ + "BAnd": func(m *Machine, c *frame, fn *ssa.Function, a []Value) Value {
+			return m.S.And(a[0].(*sym.Term), a[1].(*sym.Term))
+		},
+		ZZ + "BOr": func(m *Machine, c *frame, fn *ssa.Function, a []Value) Value {
+			return m.S.Or(a[0].(*sym.Term), a[1].(*sym.Term))
+		},
+		ZZ + "BNot": func(m *Machine, c *frame, fn *ssa.Function, a []Value) Value {
+			return m.S.Not(a[0].(*sym.Term))
+		},
+		ZZ + "Ite": func(m *Machine, c *frame, fn *ssa.Function, a []Value) Value {
+			return m.S.Ite(a[0].(*sym.Term), a[1].(*sym.Term), a[2].(*sym.Term))
+		},
+		ZZ + "BIte": func(m *Machine, c *frame, fn *ssa.Function, a []Value) Value {
+			return m.S.Ite(a[0].(*sym.Term), a[1].(*sym.Term), a[2].(*sym.Term))
+		},
+		ZZ + "Eq": func(m *Machine, c *frame, fn *ssa.Function, a []Value) Value {
+			return m.S.Eq(a[0].(*sym.Term), a[1].(*sym.Term))
+		},
 		ZZ + "Reach": func(m *Machine, c *frame, fn *ssa.Function, a []Value) Value {
 			m.Reached[m.cstr(a[0], "Reach")] = true
 			return nil
@@ -310,6 +328,34 @@ func init() {
 			m.Store(cell, m.S.Const(32, 1))
 			return m.S.True()
 		},
+		// sync.Once as a primitive: one scheduling point on entry, callers arriving while f runs block until it
+		// has finished, one scheduling point after f. State lives in the Once's own done/mutex words.
+		"(*sync.Once).Do": func(m *Machine, c *frame, fn *ssa.Function, a []Value) Value {
+			p := a[0].(PtrV)
+			if p.Obj == nil {
+				m.runtimePanic("runtime error: invalid memory address or nil pointer dereference")
+			}
+			cell := mutexCell(p) // first word of the struct: 0 = fresh, 1 = running, 2 = done
+			get := func() uint64 { return getPath(cell.Obj.Val, cell.Path).(*sym.Term).C }
+			w := getPath(cell.Obj.Val, cell.Path).(*sym.Term).W
+			m.schedPoint("once")
+			if get() == 2 {
+				return nil
+			}
+			if get() == 1 {
+				m.blockOn(func() bool { return get() == 2 }, "once in progress")
+				return nil
+			}
+			m.Store(cell, m.S.Const(w, 1))
+			defer func() {
+				// also on panic: Once counts the call as done
+				cell.Obj.Val = setPath(cell.Obj.Val, cell.Path, m.S.Const(w, 2))
+			}()
+			m.call(c, a[1], nil, 0)
+			m.Store(cell, m.S.Const(w, 2))
+			m.schedPoint("once done")
+			return nil
+		},
 		"(*sync.WaitGroup).Add": func(m *Machine, c *frame, fn *ssa.Function, a []Value) Value {
 			m.unsupported("sync.WaitGroup")
 			return nil
@@ -442,17 +488,34 @@ func atomicCAS(m *Machine, c *frame, fn *ssa.Function, a []Value) Value {
 	return m.S.False()
 }
 
-// mutexCell: first int32 field reachable from the mutex struct (sync.Mutex.state, RWMutex.w.state)
+// mutexCell: first integer word reachable from the struct in field order (sync.Mutex.state, RWMutex.w.state,
+// sync.Once.done.v)
 func mutexCell(p PtrV) PtrV {
-	v := getPath(p.Obj.Val, p.Path)
-	path := p.Path
-	for {
-		sv, ok := v.(StructV)
-		if !ok {
-			break
+	var find func(v Value, path []int) ([]int, bool)
+	find = func(v Value, path []int) ([]int, bool) {
+		switch x := v.(type) {
+		case *sym.Term:
+			if x.W > 0 {
+				return path, true
+			}
+		case StructV:
+			for i, f := range x {
+				if r, ok := find(f, extPath(path, i)); ok {
+					return r, true
+				}
+			}
+		case ArrayV:
+			for i, f := range x {
+				if r, ok := find(f, extPath(path, i)); ok {
+					return r, true
+				}
+			}
 		}
-		path = extPath(path, 0)
-		v = sv[0]
+		return nil, false
+	}
+	path, ok := find(getPath(p.Obj.Val, p.Path), p.Path)
+	if !ok {
+		panic("mutexCell: no integer word in lock struct")
 	}
 	return PtrV{p.Obj, path}
 }
